@@ -313,7 +313,12 @@ func Main(args []string) {
 		for i := 0; i < o.N; i++ {
 			c := &MergeCase{Mode: mode, Seed: r.Int63(), Index: int(o.Seed%1000)*o.N + i, Files: map[string]string{}}
 			cr := rand.New(rand.NewSource(c.Seed))
-			gf := Generate(cr, GenOpts{Mode: mode, Index: c.Index})
+			var gf []*GFile
+			if o.Tier == "thorough" && c.Index < EnumSmallCount {
+				gf = EnumSmall(c.Index, cr) // small-scope exhaustive part of the thorough tier
+			} else {
+				gf = Generate(cr, GenOpts{Mode: mode, Index: c.Index})
+			}
 			for _, f := range gf {
 				c.Files[f.Path] = f.Render()
 			}
